@@ -311,6 +311,77 @@ theorem C19_to_html_no_panic (sn : Snippet)
   have := c1 o ho
   exact ⟨Nat.zero_le _, this, by rw [ea]; exact (hall a ha).2.1, by rw [eb]; exact (hall b hb).2.2⟩
 
+/-- every highlight of the snippet is the range (shifted into fragment coordinates) of a token
+whose lower-cased text is a query term -/
+theorem C19_highlights_are_term_tokens (s : Text) (M : Nat) (ts : List STok) (hc : SContract s ts) :
+    ∃ sn a, snippet s M ts = some sn ∧
+      ∀ h ∈ sn.hl, ∃ t ∈ ts, t.score.isSome = true ∧ a ≤ t.from_ ∧ h = (t.from_ - a, t.to - a) := by
+  obtain ⟨frags, e, hf⟩ := search_P4 s M ts hc
+  simp only [snippet, e]
+  cases hb : selectBest frags with
+  | none => exact ⟨⟨[], []⟩, 0, rfl, by simp⟩
+  | some f =>
+    obtain ⟨hfi, hterm⟩ := hf f (selectBest_mem frags f hb)
+    simp only [mkSnippet_of_FI s f hfi]
+    refine ⟨_, f.start, rfl, ?_⟩
+    intro h hh
+    simp only [List.mem_map] at hh
+    obtain ⟨x, hx, rfl⟩ := hh
+    obtain ⟨t, ht, hs, rfl⟩ := hterm x hx
+    exact ⟨t, ht, hs, (hfi.2.2.2.2 _ hx).1, rfl⟩
+
+/- Full statement (false for overlapping tokens, `C19_raw_highlights_overlap_counterexample`):
+"`highlighted()` is sorted and pairwise disjoint". Proved part: -/
+
+/-- with tokens that do not overlap (simple, whitespace, raw, regex tokenizers under any filter
+that does not duplicate tokens) the raw highlight list is sorted and pairwise disjoint -/
+theorem C19_raw_highlights_disjoint_partial (s : Text) (M : Nat) (ts : List STok)
+    (hc : SContract s ts) (hd : ts.Pairwise (fun a b => a.to ≤ b.from_)) :
+    ∃ sn, snippet s M ts = some sn ∧ sn.hl.Pairwise (fun a b => a.2 ≤ b.1) := by
+  obtain ⟨frags, e, hf⟩ := search_P5 s M ts hc hd
+  simp only [snippet, e]
+  cases hb : selectBest frags with
+  | none => exact ⟨⟨[], []⟩, rfl, by simp⟩
+  | some f =>
+    obtain ⟨hfi, hp⟩ := hf f (selectBest_mem frags f hb)
+    simp only [mkSnippet_of_FI s f hfi]
+    refine ⟨_, rfl, ?_⟩
+    simp only [List.pairwise_map]
+    refine hp.imp_of_mem ?_
+    intro a b ha hb hab
+    have := (hfi.2.2.2.2 a ha).1
+    have := (hfi.2.2.2.2 b hb).1
+    omega
+
+/-- end to end for every analyzer built from SimpleTokenizer or WhitespaceTokenizer (any scanning
+predicate) and any filter chain — in particular tantivy's `default` and `en_stem` analyzers —, any
+text, any query terms, any `max_num_chars`: `snippet` does not panic, every highlight lies inside
+the fragment on character boundaries of the fragment, and `to_html` does not panic -/
+theorem C19_scan_analyzer_snippet_safe (p : Cp → Bool) (fs : List Filter) (s : Text) (M : Nat)
+    (sc : Token → Option Nat) :
+    ∃ sn, snippet s M ((applyChain fs (scanTokens p s)).map (toSTok sc)) = some sn ∧
+      (∀ h ∈ sn.hl, h.1 ≤ h.2 ∧ h.2 ≤ byteLen sn.fragment ∧
+        IsBoundary sn.fragment h.1 ∧ IsBoundary sn.fragment h.2) ∧
+      ∃ out, toHtml sn = some out := by
+  obtain ⟨hc, _, hp⟩ := scanTokens_contract p s
+  obtain ⟨hcc, _⟩ := C19_chain_preserves_offsets fs s _ hc
+  have hto : (scanTokens p s).Pairwise (fun a b => a.to ≤ b.to) := by
+    refine hp.imp_of_mem ?_
+    intro a b _ hb hab
+    have := (hc.inb b hb).1
+    omega
+  have hto' := chain_to_mono fs _ hto
+  apply C19_highlights_inside_partial
+  · refine ⟨?_, ?_⟩
+    · intro t ht
+      simp only [List.mem_map] at ht
+      obtain ⟨u, hu, rfl⟩ := ht
+      exact hcc.inb u hu
+    · simp only [List.pairwise_map, toSTok]
+      exact hcc.mono.imp (fun h => h.1)
+  · simp only [List.pairwise_map, toSTok]
+    exact hto'
+
 /-! ### non-vacuity: the hypotheses are met by concrete non-trivial states -/
 
 -- "hé 😀a": a 2-byte and a 4-byte code point; tokens (0,3,0) and (8,9,1)
@@ -328,6 +399,7 @@ example : SContract [⟨97, true⟩, ⟨233, true⟩, ⟨32, false⟩, ⟨98, tr
     ∧ [(⟨0, 3, some 4⟩ : STok), ⟨4, 5, none⟩].Pairwise (fun a b => a.to ≤ b.to)
     ∧ ∀ t ∈ [(⟨0, 3, some 4⟩ : STok), ⟨4, 5, none⟩], t.to - t.from_ ≤ 3 :=
   ⟨⟨by decide, by decide⟩, by decide, by decide⟩
+example : [(⟨0, 3, some 4⟩ : STok), ⟨4, 5, none⟩].Pairwise (fun a b => a.to ≤ b.from_) := by decide
 example : ∀ r ∈ [((0 : Nat), (3 : Nat)), (2, 5), (5, 7)], r.1 ≤ r.2 := by decide
 example : collapse [(2, 5), (0, 3), (5, 7), (0, 3)] = [(0, 5), (5, 7)] := by decide
 -- `<a> b` with `a` highlighted renders as `&lt;<b>a</b>&gt; b`
